@@ -9,100 +9,58 @@ package server
 // template.(*Template).Execute renders into w and reads v (collate copies every message
 // before merging), so the only caller-visible memory it writes is the buffer behind w.
 //@ extern func template.(*Template).Execute
-//@   modifies boxed(w)
+//@   modifies w.ghost_len
 // tokenize is the runner's Tokenize method value (an HTTP round trip to the runner): it reads
 // the string and writes nothing in the caller's memory.
 //@ extern func (tokenizeFunc)
 //@   modifies nothing
 //@ extern func model/models/mllama.Preprocess
-//@   modifies boxed(imageData)
+//@   modifies imageData.ghost_pos
 
 //@ func checkMllamaModelFamily
 //@   modifies nothing
 
 // Loop ordinals of chatPrompt: 1 outer reverse loop (i)  2 for j := range i  3 image tokens over msgs[i:]
 // 4 for cnt, msg := range msgs[currMsgIdx:]  5 for _, i := range msg.Images
+//
+// Ghost enumeration of the system messages (definitional preconditions: for every msgs there is
+// exactly one such pair of functions on the relevant arguments, so they do not restrict the inputs):
+// c19nsys(j) = number of system messages among msgs[0:j], c19sidx(p) = index of the p-th system message.
+//@ spec func c19nsys(j int) int
+//@ spec func c19sidx(p int) int
+
 //@ func chatPrompt
 //@   requires len(msgs) >= 1
+//@   requires c19nsys(0) == 0
+//@   requires forall j int :: 0 <= j && j < len(msgs) ==> c19nsys(j+1) == c19nsys(j) + ite(msgs[j].Role == "system", 1, 0)
+//@   requires forall j int :: 0 <= j && j < len(msgs) && msgs[j].Role == "system" ==> c19sidx(c19nsys(j)) == j
+//
 //@   loop 1 invariant -1 <= i && i <= n && n - 1 <= i && n <= len(msgs) - 1 && 0 <= n
 //@   loop 1 invariant n == len(msgs) - 1 ==> len(system) == 0
-//@   loop 1 invariant forall p int :: 0 <= p && p < len(system) ==> exists q int :: 0 <= q && q < n && msgs[q].Role == "system" && system[p].Role == msgs[q].Role && system[p].Content == msgs[q].Content
-//@   loop 1 invariant n < len(msgs) - 1 ==> i == n - 1
-//@   loop 1 invariant n < len(msgs) - 1 ==> forall q int :: 0 <= q && q < n && msgs[q].Role == "system" ==> exists p int :: 0 <= p && p < len(system) && system[p].Role == msgs[q].Role && system[p].Content == msgs[q].Content
 //@   loop 1 invariant cap(system) == 0 || fresh(system)
-//@   loop 2 invariant fresh(system)
-//@   loop 2 invariant forall p int :: 0 <= p && p < len(system) ==> exists q int :: 0 <= q && q < j && msgs[q].Role == "system" && system[p].Role == msgs[q].Role && system[p].Content == msgs[q].Content
-//@   loop 2 invariant forall q int :: 0 <= q && q < j && msgs[q].Role == "system" ==> exists p int :: 0 <= p && p < len(system) && system[p].Role == msgs[q].Role && system[p].Content == msgs[q].Content
-//@   loop 4 invariant forall p int :: 0 <= p && p < len(system) ==> exists q int :: 0 <= q && q < currMsgIdx && msgs[q].Role == "system" && system[p].Role == msgs[q].Role && system[p].Content == msgs[q].Content
-//@   loop 4 invariant forall q int :: 0 <= q && q < currMsgIdx && msgs[q].Role == "system" ==> exists p int :: 0 <= p && p < len(system) && system[p].Role == msgs[q].Role && system[p].Content == msgs[q].Content
-//@   assert-at call Execute #1 : forall q int :: 0 <= q && q < i && msgs[q].Role == "system" ==> exists p int :: 0 <= p && p < len(system) && system[p].Role == msgs[q].Role && system[p].Content == msgs[q].Content
-//@   assert-at after call (tokenizeFunc) #1 : forall q int :: 0 <= q && q < i && msgs[q].Role == "system" ==> exists p int :: 0 <= p && p < len(system) && system[p].Role == msgs[q].Role && system[p].Content == msgs[q].Content
-//@   assert-at call Execute #2 : 0 <= currMsgIdx && currMsgIdx <= len(msgs) - 1
+//@   loop 1 invariant forall q int :: 0 <= q && q < len(msgs) ==> msgs[q].Role == old(msgs[q].Role)
+//@   loop 1 invariant forall p int :: 0 <= p && p < len(system) ==> 0 <= c19sidx(p) && c19sidx(p) < n && msgs[c19sidx(p)].Role == "system" && system[p].Role == msgs[c19sidx(p)].Role && system[p].Content == msgs[c19sidx(p)].Content
+//@   loop 1 invariant n < len(msgs) - 1 ==> i == n - 1 && len(system) == c19nsys(n)
+//@   loop 1 invariant n < len(msgs) - 1 ==> forall q int :: 0 <= q && q < n && msgs[q].Role == "system" ==> 0 <= c19nsys(q) && c19nsys(q) < len(system) && system[c19nsys(q)].Role == msgs[q].Role && system[c19nsys(q)].Content == msgs[q].Content
+//
+//@   loop 2 invariant fresh(system) && len(system) == c19nsys(j)
+//@   loop 2 invariant forall q int :: 0 <= q && q < len(msgs) ==> msgs[q].Role == old(msgs[q].Role)
+//@   loop 2 invariant forall p int :: 0 <= p && p < len(system) ==> 0 <= c19sidx(p) && c19sidx(p) < j && msgs[c19sidx(p)].Role == "system" && system[p].Role == msgs[c19sidx(p)].Role && system[p].Content == msgs[c19sidx(p)].Content
+//@   loop 2 invariant forall q int :: 0 <= q && q < j && msgs[q].Role == "system" ==> 0 <= c19nsys(q) && c19nsys(q) < len(system) && system[c19nsys(q)].Role == msgs[q].Role && system[c19nsys(q)].Content == msgs[q].Content
+//
+//   the break path: the retained suffix starts at i+1, so system must cover msgs[0:i+1]
+//@   assert-at call Debug #1 : forall q int :: 0 <= q && q < i + 1 && msgs[q].Role == "system" ==> 0 <= c19nsys(q) && c19nsys(q) < len(system) && system[c19nsys(q)].Role == msgs[q].Role && system[c19nsys(q)].Content == msgs[q].Content
+//
+//@   loop 4 invariant forall q int :: 0 <= q && q < len(msgs) ==> msgs[q].Role == old(msgs[q].Role)
+//@   loop 4 invariant forall p int :: 0 <= p && p < len(system) ==> 0 <= c19sidx(p) && c19sidx(p) < currMsgIdx && msgs[c19sidx(p)].Role == "system" && system[p].Role == msgs[c19sidx(p)].Role && system[p].Content == msgs[c19sidx(p)].Content
+//@   loop 4 invariant forall q int :: 0 <= q && q < currMsgIdx && msgs[q].Role == "system" ==> 0 <= c19nsys(q) && c19nsys(q) < len(system) && system[c19nsys(q)].Role == msgs[q].Role && system[c19nsys(q)].Content == msgs[q].Content
 //@   loop 4 invariant forall k int :: 0 <= k && k < len(images) ==> images[k].ID == k
 //@   loop 5 invariant forall k int :: 0 <= k && k < len(images) ==> images[k].ID == k
 //@   assert-at call append #3 : imgData.ID == len(images)
+//
+//   the final rendering (append #4 builds the message list passed to Execute #2): latest message
+//   retained, system messages in the property's own words
+//@   assert-at call Execute #2 : 0 <= currMsgIdx && currMsgIdx <= len(msgs) - 1
+//@   assert-at call append #4 : forall p int :: 0 <= p && p < len(system) ==> exists q int :: 0 <= q && q < currMsgIdx && msgs[q].Role == "system" && system[p].Role == msgs[q].Role && system[p].Content == msgs[q].Content
+//@   assert-at call append #4 : forall q int :: 0 <= q && q < currMsgIdx && msgs[q].Role == "system" ==> exists p int :: 0 <= p && p < len(system) && system[p].Role == msgs[q].Role && system[p].Content == msgs[q].Content
 // ---- end C19 ----
-
-// ==== C13 (server/modelpath.go, server/manifest.go, server/images.go): store confinement ====
-// Uses spec functions and trusted library contracts of /verif/contracts/types/model/verif_contracts.go
-// (validpart, fqname, fpjoin3, fpjoin4, path/filepath.Join, strings.Cut, strings.Split): C13 loads
-// ./types/model together with ./server. Nothing in this block is evaluated for other properties
-// unless they verify or call the functions named here.
-
-//@ spec func hexdig(c int) bool = (48 <= c && c <= 57) || (97 <= c && c <= 102) || (65 <= c && c <= 70)
-// "sha256" + (':' | '-') + 64 hex digits, nothing else: what ^sha256[:-][0-9a-fA-F]{64}$ accepts
-//@ spec func digestshape(s string) bool = len(s) == 71 && s[0] == 115 && s[1] == 104 && s[2] == 97 && s[3] == 50 && s[4] == 53 && s[5] == 54 && (s[6] == 58 || s[6] == 45) && forall j int :: 7 <= j && j < 71 ==> hexdig(s[j])
-// the file name below blobs/: "sha256-" + 64 hex digits (no separator byte, not dot-first)
-//@ spec func blobfile(s string) bool = len(s) == 71 && s[0] == 115 && s[1] == 104 && s[2] == 97 && s[3] == 50 && s[4] == 53 && s[5] == 54 && s[6] == 45 && forall j int :: 7 <= j && j < 71 ==> hexdig(s[j])
-//@ spec func strid(s string) int
-//@ spec func sreplaceall(s string, from string, to string) string
-
-//@ lemma blobfile_no_separators(s string, j int)
-//@   requires blobfile(s) && 0 <= j && j < len(s)
-//@   ensures s[j] != 47 && s[j] != 92 && s[j] != 0 && s[j] != 46 && s[j] != 58
-
-// regexp: the compiled object remembers its pattern (ghost); what MatchString decides is
-// stated only for the one pattern the property names. Trusted.
-//@ extern func regexp.MustCompile
-//@   modifies nothing
-//@   ensures result != nil && result.ghost_pat == strid(str)
-//@ extern func regexp.(*Regexp).MatchString
-//@   modifies nothing
-//@   ensures this.ghost_pat == strid("^sha256[:-][0-9a-fA-F]{64}$") ==> (result <==> digestshape(s))
-
-// arg1 = old, arg2 = new (`old` is a keyword of the contract language)
-//@ extern func strings.ReplaceAll
-//@   pure
-//@   ensures result == sreplaceall(s, arg1, arg2)
-//@   ensures len(arg1) == 1 && len(arg2) == 1 ==> len(result) == len(s)
-//@   ensures len(arg1) == 1 && len(arg2) == 1 ==> forall j int :: 0 <= j && j < len(s) ==> result[j] == ite(s[j] == arg1[0], arg2[0], s[j])
-
-// The models directory is fixed for the duration of a call (environment not changed concurrently).
-//@ extern func envconfig.Models
-//@   pure reads none
-
-// A digest is either refused or names blobs/sha256-<64 hex> directly below the models
-// directory; the only rewrite of an accepted digest is ':' -> '-'.
-//@ func GetBlobsPath
-//@   requires ErrInvalidDigestFormat != nil   -- errors.New value, assigned once at package init
-//@   assert-at call MustCompile #1 : arg0 == "^sha256[:-][0-9a-fA-F]{64}$"
-//@   ensures result.1 == nil ==> digest == "" || digestshape(digest)
-//@   ensures result.1 == nil ==> result.0 == fpjoin3(envconfig.Models(), "blobs", sreplaceall(digest, ":", "-"))
-//@   ensures result.1 == nil && digest != "" ==> blobfile(sreplaceall(digest, ":", "-"))
-//@   ensures result.1 == nil && digest != "" ==> forall j int :: 0 <= j && j < 71 ==> sreplaceall(digest, ":", "-")[j] == ite(j == 6, 45, digest[j])
-//@   ensures result.1 != nil ==> result.0 == ""
-
-// A model path is either refused or names manifests/<host>/<namespace>/<model>/<tag> with
-// four parts accepted by the validator (validpart_no_separators: no '/', '\', NUL, not dot-first).
-// The first two clauses are stated over the returned path, the next two over the error. At the
-// refusing return the error is the library sentinel io/fs.ErrNotExist; govc cannot yet state that
-// an external package variable is non-nil (spec `fs.ErrNotExist` and the load in the code are
-// different terms), so the two error-based obligations at that return are listed as undecided.
-//@ func (ModelPath).GetManifestPath
-//@   ensures result.0 != "" ==> fqname(mp.Registry, mp.Namespace, mp.Repository, mp.Tag)
-//@   ensures result.0 != "" ==> result.0 == fpjoin3(envconfig.Models(), "manifests", fpjoin4(mp.Registry, mp.Namespace, mp.Repository, mp.Tag))
-//@   ensures result.1 == nil ==> fqname(mp.Registry, mp.Namespace, mp.Repository, mp.Tag)
-//@   ensures result.1 == nil ==> result.0 == fpjoin3(envconfig.Models(), "manifests", fpjoin4(mp.Registry, mp.Namespace, mp.Repository, mp.Tag))
-//@   ensures !fqname(mp.Registry, mp.Namespace, mp.Repository, mp.Tag) ==> result.0 == ""
-
-// ==== end C13 ====
